@@ -42,16 +42,23 @@ def run_into(rep, tier, prop, focus=None, budget=None, main_sim=None):
     rep.add_tlc('GinDynReg_Export_rebind(every file of the family where two imports bind one name, with the specification result)', rx, exhaustive=True)
     if rx.violation:
       raise tlc.TLCError('design-level violation in the re-binding family: %s' % rx.violation)
-    sib += [c for c in _cases(rx) if c['status'] == 'ok' and c['cfg'] and
-            (sum(1 for x in c['doc'] if x['t'] == 'import') >= 2 or any(x['t'] == 'import' and x['alias'] == 'pk' for x in c['doc']))]
+    rb = [c for c in _cases(rx) if c['status'] == 'ok' and c['cfg'] and
+          (sum(1 for x in c['doc'] if x['t'] == 'import') >= 2 or any(x['t'] == 'import' and x['alias'] == 'pk' for x in c['doc']))]
+    for c in rb:
+      c['fam'] = 'rebind'
+    sib += rb
     mx = tlc.run('GinDynReg_Export', 'GinDynReg_Export_meth.cfg', workers=1, timeout=900)
     rep.add_tlc('GinDynReg_Export_meth(every file of the method family: references made before / after methods are configured)', mx, exhaustive=True)
     if mx.violation:
       raise tlc.TLCError('design-level violation in the method family: %s' % mx.violation)
     # a reference and at least one binding of the referenced class or of one of its methods
-    sib += [c for c in _cases(mx) if c['status'] == 'ok' and any(b.get('ref', 'none') != 'none' for b in c['cfg']) and len(c['cfg']) >= 2]
+    mt = [c for c in _cases(mx) if c['status'] == 'ok' and any(b.get('ref', 'none') != 'none' for b in c['cfg']) and len(c['cfg']) >= 2]
+    for c in mt:
+      c['fam'] = 'meth'
+    sib += mt
     for c in sib:
       c['family'] = 'sib'
+      c.setdefault('fam', 'sib')
   cases = _cases(ex)
   seen, chosen = set(), []
   for c in sib + hist + cases:
@@ -77,7 +84,12 @@ def run_into(rep, tier, prop, focus=None, budget=None, main_sim=None):
     alias_pk = any(x['t'] == 'import' and x['alias'] == 'pk' for x in c['doc'])
     return -(2 * bool(meths and any(b.get('rscope') for b in refs)) + bool(meths and any(b['ref'] == 'Inner' for b in refs)) + 2 * alias_pk)
   sb.sort(key=_pri)
-  h = h + sb[:budget // 4]
+  # a quota per exhaustively exported family
+  q = max(1, budget // 6)
+  picked = []
+  for fam in ('sib', 'rebind', 'meth'):
+    picked += [c for c in sb if c.get('fam') == fam][:q]
+  h = h + picked
   rest = [c for c in chosen if not c.get('prev') and c.get('family') != 'sib'][:budget - len(h)]
   for c in h + rest:
     rep.evaluations += 1
